@@ -7,7 +7,7 @@
 (* the operators they use, so a malformed value is a failed clause and     *)
 (* never a TLC evaluation error.                                           *)
 (***************************************************************************)
-EXTENDS FMMetrics, FMEq, FMFormats
+EXTENDS FMMetrics, FMEq, FMFormats, FMExports
 
 \* A clause is <<name, truth>> or <<name, truth, why>>: `why` names the deviation
 \* (a known finding modelled in the specification) that explains a failure, or "".
@@ -305,6 +305,38 @@ ReadClauses(cur, e) ==
        << <<p \o ".cycle.model", ok /\ SameModel(b, cur.m1)>> >>)
 
 ---------------------------------------------------------------------------
+(* Exports (C10, C11): e.ret.doc is the parsed abstract syntax *)
+ExportClauses(cur, e) ==
+  LET m == cur.model
+      lang == e.args.lang
+      R == e.ret
+      d == R.doc
+      p == IF lang = "clafer" THEN "C11." ELSE "C10." \o lang \o "."
+      frag == IF lang = "clafer" THEN InClaferFrag(m) ELSE InExportFrag(m)
+      ok == frag /\ e.out = "value" /\ R.parsed
+      ids == CASE lang = "splot" -> SplotIds(d) [] lang = "pl" -> PLVars(d) [] OTHER -> ClaferNames(d)
+      cfg == CASE lang = "splot" -> SplotConfigs(d) [] lang = "pl" -> PLConfigs(d) [] OTHER -> ClaferConfigs(d)
+  IN
+  << <<"C12.pure." \o lang, e.anom = <<>> /\ e.post = m>>,
+     <<p \o "total",  frag => e.out = "value">>,
+     <<p \o "parses", frag /\ e.out = "value" => R.parsed>> >>
+  \o Guarded(ok,
+  << <<p \o "allfeatures", ids = Names(m) /\ (lang = "splot" => NoDup(d.ids)) /\ (lang = "clafer" => d.inst = m.root)>>,
+     <<p \o "sameconfigs", ids = Names(m) => cfg = Configs(m),
+          Why("dep-simplify", lang = "splot" /\ ids = Names(m) /\ ModelHasDepOps(m) /\ cfg = Configs(DepModel(m)))>> >>)
+  \o Guarded(ok /\ lang = "clafer",
+  << <<"C11.ids.attrs", \* every attribute used is declared, with the same spelling
+          \A i \in DOMAIN d.nodes : \A k \in DOMAIN d.nodes[i].attrs :
+             \E j \in DOMAIN d.decls : d.decls[j].name = d.nodes[i].attrs[k].name
+                                        /\ d.decls[j].raw_quoted = d.nodes[i].attrs[k].quoted>>,
+     <<"C11.ids.declared", \A i \in DOMAIN d.nodes : (d.nodes[i].attrs # <<>>) => d.nodes[i].attributed>>,
+     <<"C11.ids.attrnames", \A f \in Names(m) :
+          LET want == {FeatOf(m, f).attrs[k].name : k \in DOMAIN FeatOf(m, f).attrs}
+              S == {i \in DOMAIN d.nodes : d.nodes[i].name = f}
+          IN  \A i \in S : {d.nodes[i].attrs[k].name : k \in DOMAIN d.nodes[i].attrs} = want>>,
+     <<"C11.ids.ctcvars", \A i \in DOMAIN d.ctcs : VarsOf(d.ctcs[i]) \subseteq ClaferNames(d)>> >>)
+
+---------------------------------------------------------------------------
 ClassifyEventClauses(cur, e) ==
   << <<"C18.classify.sameast", e.ret.ast = e.args.ast>> >> \o ClassifyClauses(e.ret)
 
@@ -317,6 +349,7 @@ Clauses(cur, e) ==
     [] e.a = "GenAttr"        -> GenAttrClauses(cur, e)
     [] e.a = "Compare"        -> CompareClauses(cur, e)
     [] e.a = "Write"          -> WriteClauses(cur, e)
+    [] e.a = "Export"         -> ExportClauses(cur, e)
     [] e.a = "Read"           -> ReadClauses(cur, e)
     [] e.a = "ReadBack"       -> << <<"C12.utf8.names." \o e.args.fmt,
                                       e.out = "value" => (e.anom = <<>> /\ Names(e.post) = Names(cur.model))>> >>
